@@ -28,7 +28,7 @@ ASSUMPTIONS = ["extractor-failure tracebacks: presence, class and text are check
                "an extractor that raises an exception of a class it is itself registered for is generated only "
                "when cfg.self_covered is drawn (known defect D)"]
 
-EXC = P.DEFAULT_EXC + ["StrRaises", "ExtractMe", "ExtractSub", "CollideErr"]
+EXC = P.DEFAULT_EXC + ["StrRaises", "ExtractMe", "ExtractSub", "CollideErr", "MixedErr", "MixedErr2"]
 EXTRACTABLE = ["ExtractMe", "ExtractSub", "AppError", "AppSubError", "ValueError", "OSError", "KeyError",
                "AppBase", "CancelledError", "GeneratorExit", "Exception"]
 
@@ -57,6 +57,7 @@ def draw_cfg(st, prop="C03"):
         "w_xreg": st.choose(2, "xreg"),
         "mutate_exc": True,
         "extractable": EXTRACTABLE,
+        "w_handler": st.choose(3, "handler"),
     }
     styles = [i for i in range(len(P.ACT_STYLES)) if i == 0 or st.choose(3, "style-on")]
     cfg["act_styles"] = styles
@@ -87,6 +88,13 @@ def draw_cfg(st, prop="C03"):
         mode = "raise" if st.choose(4, "xmode") == 3 else "fields"
         if cname not in [c for c, _m in ex]:
             ex.append([cname, mode])
+    if world == "threads" and st.choose(2, "hot-class"):
+        # every thread fails with the same few classes, all covered by one slow extractor that fails (or
+        # works): the registry entry is used by several threads at the same moment
+        hot = ["AppError", "ValueError", "KeyError", "ExtractMe"][st.choose(4, "hot")]
+        cfg["exc"] = {"AppError": ["AppError", "AppSubError", "MixedErr"], "ValueError": ["ValueError", "MixedErr2"],
+                      "KeyError": ["KeyError", "MixedErr"], "ExtractMe": ["ExtractMe", "ExtractSub"]}[hot]
+        ex = [[hot, "raise" if st.choose(3, "hot-mode") else "fields"]]
     if st.choose(2, "collide"):
         # an extractor whose result collides with the fields eliot itself puts on a failed end message
         ex.append(["CollideErr", "collide"])
@@ -116,7 +124,9 @@ def run_one(seed, dec):
 
 def oracle(rc):
     msgs = [r.msg for r in rc.tap.records]
-    O.account(msgs, rc.model)
-    O.check_forest(msgs, rc.model, order_free=False)
+    # (where eliot files the reports about its own failures -- a raising extractor's traceback -- is not part of
+    # C03; its two messages per action, their status and fields are)
+    O.account(msgs, rc.model, lenient=True)
+    O.check_forest(msgs, rc.model, order_free=False, lenient=True, require_complete=False)
     # cancelled tasks: every action open in them ended failed with CancelledError -- implied by the
     # dynamic model (the interpreter saw CancelledError pass through each of its frames).
